@@ -360,4 +360,154 @@ theorem angularTF_neg_z (p : Params) (qy qx : ℕ) :
   intro r _
   exact angSample_neg_z p.z (evanescentZ p) r
 
+/-! ## the impulse-response branch of the Fresnel propagator and the regime switch -/
+
+theorem ev_fresnelIrTFc (p : Params) (iy ix : ℕ) :
+    PSum.ev (fresnelIrTFc psumScalar p iy ix) = fresnelIrTFc cScalar p iy ix := by
+  unfold fresnelIrTFc
+  rw [PSum.ev_mul]
+  congr 1
+  · exact PSum.ev_ofRat _
+  · rw [sumRange_map PSum.ev PSum.ev_zero PSum.ev_add]
+    congr 1
+    funext jy
+    rw [sumRange_map PSum.ev PSum.ev_zero PSum.ev_add]
+    congr 1
+    funext jx
+    rw [PSum.ev_mul, PSum.ev_mul, ev_meanTurns, ev_pKerF, ev_pKerF, cScalar_kerF, cScalar_kerF]
+
+theorem ev_fresnelIrTF (p : Params) (qy qx : ℕ) :
+    PSum.ev (fresnelIrTF psumScalar p qy qx) = fresnelIrTF cScalar p qy qx := ev_fresnelIrTFc p _ _
+
+theorem ev_fresnelTFSwitched (p : Params) (qy qx : ℕ) :
+    PSum.ev (fresnelTFSwitched psumScalar p qy qx) = fresnelTFSwitched cScalar p qy qx := by
+  unfold fresnelTFSwitched
+  split
+  · exact ev_fresnelIrTF p qy qx
+  · exact ev_fresnelTF p qy qx
+
+theorem ev_fresnelPropagatorForward (p : Params) (X : ℕ → ℕ → PSum) (ky kx : ℕ) :
+    PSum.ev (fresnelPropagatorForward psumScalar p X ky kx)
+      = fresnelPropagatorForward cScalar p (fun a b => PSum.ev (X a b)) ky kx := by
+  unfold fresnelPropagatorForward
+  split
+  · rw [ev_fourierFilter]
+    congr 1
+    funext a b
+    exact ev_fresnelIrTF p a b
+  · exact ev_fresnelForward p X ky kx
+
+theorem ev_fresnelPropagatorBackward (p : Params) (X : ℕ → ℕ → PSum) (ky kx : ℕ) :
+    PSum.ev (fresnelPropagatorBackward psumScalar p X ky kx)
+      = fresnelPropagatorBackward cScalar p (fun a b => PSum.ev (X a b)) ky kx := by
+  unfold fresnelPropagatorBackward
+  split
+  · rw [ev_fourierFilterBackward]
+    congr 1
+    funext a b
+    exact ev_fresnelIrTF p a b
+  · exact ev_fresnelBackward p X ky kx
+
+/-- both branches are one `fourierFilter` with the switched transfer function -/
+theorem fresnelPropagatorForward_eq {C : Type} [Zero C] [Add C] [Mul C] (S : Scalar C) (p : Params) (x : ℕ → ℕ → C) :
+    fresnelPropagatorForward S p x = fourierFilter S p (fresnelTFSwitched S p) x := by
+  unfold fresnelPropagatorForward fresnelTFSwitched fresnelForward
+  split <;> rfl
+
+theorem fresnelPropagatorBackward_eq {C : Type} [Zero C] [Add C] [Mul C] (S : Scalar C) (p : Params) (x : ℕ → ℕ → C) :
+    fresnelPropagatorBackward S p x = fourierFilterBackward S p (fresnelTFSwitched S p) x := by
+  unfold fresnelPropagatorBackward fresnelTFSwitched fresnelBackward
+  split <;> rfl
+
+/-- `impulse_response` of `FresnelPropagator.make_instance` as the code writes it:
+`exp(ikz)/(iλz) · exp(i k/(2z) (x²+y²))` at `k = 2πn/λ`. -/
+noncomputable def fresnelIrAt (p : Params) (x y : ℚ) : ℂ :=
+  cexp (((waveK p * (p.z : ℝ) : ℝ) : ℂ) * I) / (I * ((p.lam : ℝ) : ℂ) * ((p.z : ℝ) : ℂ))
+    * cexp (((waveK p / (2 * (p.z : ℝ)) * ((x : ℝ) * (x : ℝ) + (y : ℝ) * (y : ℝ)) : ℝ) : ℂ) * I)
+
+theorem fresnelIrAt_eq_turns (p : Params) (hl : p.lam ≠ 0) (hz : p.z ≠ 0) (x y : ℚ) :
+    fresnelIrAt p x y = cScalar.ofRat (fresnelIrAmp p) * cScalar.turns (fresnelIrTurns p x y) := by
+  have hl' : (p.lam : ℝ) ≠ 0 := by exact_mod_cast hl
+  have hz' : (p.z : ℝ) ≠ 0 := by exact_mod_cast hz
+  have hlc : ((p.lam : ℝ) : ℂ) ≠ 0 := by exact_mod_cast hl'
+  have hzc : ((p.z : ℝ) : ℂ) ≠ 0 := by exact_mod_cast hz'
+  show _ = (((fresnelIrAmp p : ℚ)) : ℂ) * expT ((fresnelIrTurns p x y : ℚ) : ℝ)
+  rw [expT_eq_cexp]
+  have e : (2 * Real.pi * ((fresnelIrTurns p x y : ℚ) : ℝ) : ℝ)
+      = -(Real.pi / 2) + (waveK p * (p.z : ℝ)
+          + waveK p / (2 * (p.z : ℝ)) * ((x : ℝ) * (x : ℝ) + (y : ℝ) * (y : ℝ))) := by
+    unfold fresnelIrTurns waveK
+    push_cast
+    field_simp
+    ring
+  rw [e, Complex.ofReal_add, Complex.ofReal_add, add_mul, add_mul, Complex.exp_add, Complex.exp_add]
+  have hI : cexp (((-(Real.pi / 2) : ℝ) : ℂ) * I) = -I := by
+    have : (((-(Real.pi / 2) : ℝ) : ℂ) * I) = -(↑Real.pi / 2 * I) := by push_cast; ring
+    rw [this, Complex.exp_neg, Complex.exp_pi_div_two_mul_I, Complex.inv_I]
+  rw [hI]
+  unfold fresnelIrAt fresnelIrAmp
+  have hamp : (((1 / (p.lam * p.z) : ℚ)) : ℂ) = 1 / (((p.lam : ℝ) : ℂ) * ((p.z : ℝ) : ℂ)) := by push_cast; rfl
+  rw [hamp]
+  have hinv : (I * ((p.lam : ℝ) : ℂ) * ((p.z : ℝ) : ℂ))⁻¹ = (((p.lam : ℝ) : ℂ) * ((p.z : ℝ) : ℂ))⁻¹ * (-I) := by
+    rw [mul_assoc, mul_inv, Complex.inv_I]
+    ring
+  rw [div_eq_mul_inv, hinv, one_div]
+  ring
+
+
+theorem sumRange_mul_left (c : ℂ) (n : ℕ) (g : ℕ → ℂ) : c * Fft.sumRange n g = Fft.sumRange n (fun i => c * g i) := by
+  induction n with
+  | zero => exact mul_zero c
+  | succ n ih => rw [Fft.sumRange, Fft.sumRange, mul_add, ih]
+
+theorem sum_flatMap_mul {α : Type} (c : ℂ) (l : List α) (f g : α → List ℂ) (hfg : ∀ a, (f a).sum = c * (g a).sum) :
+    (l.flatMap f).sum = c * (l.flatMap g).sum := by
+  induction l with
+  | nil => simp
+  | cons a l ih => rw [List.flatMap_cons, List.flatMap_cons, List.sum_append, List.sum_append, hfg, ih, mul_add]
+
+/-- the sub-pixel mean of the impulse response as the code writes it is `amp · meanTurns` of the executed phases -/
+theorem listMean_fresnelIrAt (p : Params) (hl : p.lam ≠ 0) (hz : p.z ≠ 0) (jx jy : ℕ) :
+    listMean ((dithers p.sy).flatMap fun dy => (dithers p.sx).map fun dx =>
+        fresnelIrAt p (xCoord p.dx (mx p) jx dx) (xCoord p.dy (my p) jy dy))
+      = cScalar.ofRat (fresnelIrAmp p) * meanTurns cScalar (fresnelIrSubTurns p jx jy) := by
+  rw [meanTurns_c]
+  unfold fresnelIrSubTurns listMean
+  rw [List.length_map, List.map_flatMap, List.length_flatMap, List.length_flatMap, ← mul_div_assoc]
+  congr 1
+  · apply sum_flatMap_mul
+    intro dy
+    rw [List.map_map, ← List.sum_map_mul_left]
+    congr 1
+    apply List.map_congr_left
+    intro dx _
+    simp only [Function.comp]
+    rw [fresnelIrAt_eq_turns p hl hz, expT_frac]
+    rfl
+  · simp only [List.length_map]
+
+theorem fresnelIrTFc_eq_sampled (p : Params) (hl : p.lam ≠ 0) (hz : p.z ≠ 0) (iy ix : ℕ) :
+    fresnelIrTFc cScalar p iy ix
+      = ((p.dx * p.dy : ℚ) : ℂ) * Fft.sumRange (my p) fun jy => Fft.sumRange (mx p) fun jx =>
+          listMean ((dithers p.sy).flatMap fun dy => (dithers p.sx).map fun dx =>
+              fresnelIrAt p (xCoord p.dx (mx p) jx dx) (xCoord p.dy (my p) jy dy))
+            * (kF (my p) (centred (my p) jy * centred (my p) iy) * kF (mx p) (centred (mx p) jx * centred (mx p) ix)) := by
+  unfold fresnelIrTFc
+  simp only [listMean_fresnelIrAt p hl hz, cScalar_kerF]
+  have hsplit : cScalar.ofRat (p.dx * p.dy * fresnelIrAmp p)
+      = ((p.dx * p.dy : ℚ) : ℂ) * cScalar.ofRat (fresnelIrAmp p) := by
+    show (((p.dx * p.dy * fresnelIrAmp p : ℚ)) : ℂ) = ((p.dx * p.dy : ℚ) : ℂ) * ((fresnelIrAmp p : ℚ) : ℂ)
+    push_cast
+    ring
+  rw [hsplit, mul_assoc]
+  congr 1
+  rw [sumRange_mul_left]
+  congr 1
+  funext jy
+  rw [sumRange_mul_left]
+  congr 1
+  funext jx
+  ring
+
+
 end HcipyVerif.NearField
